@@ -133,6 +133,10 @@ Definition chol_route (S : settings) (n : nat) : bool :=
   ~~ s_log_prob S || (n <= s_max_cholesky_size S).
 Definition invquad_chol_solve (S : settings) (n : nat) : bool :=
   [|| ~~ s_solves S, ~~ s_log_prob S | n <= s_max_cholesky_size S].
+(* the selector of functions/_solve.py (Solve.forward, used by LinearOperator.solve): it has NO log_prob clause - InvQuad's
+   own helper above differs from it exactly when fast_computations.log_prob is off, solves are on and n > max_cholesky_size *)
+Definition solve_chol_solve (S : settings) (n : nat) : bool :=
+  ~~ s_solves S || (n <= s_max_cholesky_size S).
 (* AddedDiagLinearOperator._preconditioner: no preconditioner when
    max_preconditioner_size == 0 or n < min_preconditioning_size *)
 Definition use_precond (S : settings) (n : nat) : bool :=
